@@ -210,6 +210,23 @@ impl<'a> Runner<'a> {
             IdRef::Base(c) => self.clients[c].base().unwrap_or(Uuid::nil()),
             IdRef::SnapVid(c) => self.clients[c].snap.as_ref().map(|s| s.vid).unwrap_or_else(|| fresh_uuid(self.hist.seed, 300_000 + c)),
             IdRef::Fresh(n) => fresh_uuid(self.hist.seed, n),
+            IdRef::BeforeBase(c, j) => {
+                if let Some(b) = self.clients[c].base() {
+                    for (o, cl) in self.clients.iter().enumerate() {
+                        if o == c {
+                            continue;
+                        }
+                        if let Some(p) = cl.pos_of(b) {
+                            if p >= j {
+                                return cl.chain[p - j].vid;
+                            } else if p + 1 == j {
+                                return cl.base().unwrap_or(Uuid::nil());
+                            }
+                        }
+                    }
+                }
+                fresh_uuid(self.hist.seed, 400_000 + c * 100 + j)
+            }
         }
     }
 
@@ -609,6 +626,7 @@ impl<'a> Runner<'a> {
         let own = |r: IdRef| -> bool {
             match r {
                 IdRef::Latest(c) | IdRef::Nth(c, _) | IdRef::Back(c, _) | IdRef::Base(c) | IdRef::SnapVid(c) => c == op.client,
+                IdRef::BeforeBase(_, _) => false,
                 IdRef::Nil | IdRef::Fresh(_) => true,
             }
         };
